@@ -25,11 +25,11 @@ META = dict(
          "moving to either other broker, every KError code in place of success, answer without the topic entry, dropped connection; "
          "0..Max+1 controller moves; a move may come with an election during which the next 1 or 2 metadata answers name NO controller, "
          "and the client may start with its cached controller wiped) for every Kafka release that changes the request version; and for DeleteRecords/"
-         "DescribeConsumerGroups/ListConsumerGroupOffsets/DeleteConsumerGroup every spread of 3 partitions/groups over 3 brokers with "
+         "DescribeConsumerGroups/ListConsumerGroupOffsets/DeleteConsumerGroup/DescribeLogDirs every spread of 3 partitions/groups over 3 brokers with "
          "every per-item verdict and one broker failing. Each case is executed on the real admin.go/client.go; the brokers log who "
          "received which request (type, version, items), the driver logs the returned value; TLC decides the clauses "
          "(routing to the then-current controller / owner, retry exactly on NOT_CONTROLLER, success iff acknowledged, errors "
-         "returned with the broker's code, request version supported by the configured release).",
+         "returned with the broker's code, each broker's answer filed under that broker, request version supported by the configured release).",
     note="bounded: 3 brokers, Retry.Max <= 3, 3 items; metadata and coordinator look-ups always succeed and tell the truth (a metadata "
          "answer may truthfully name no controller during an election; giving up with ErrControllerNotAvailable is excused only when the "
          "look-up of the NEW attempt found nobody, which is what the code does when an election outlasts two metadata answers); "
@@ -103,7 +103,7 @@ def features(evs, reset):
                   "last_place": (script[len(reqs) - 1][2] if reqs and len(reqs) <= len(script) else "-")})
     else:
         f.update({"own": reset.get("own"), "itemv": reset.get("itemv"), "bfault": reset.get("bfault"),
-                  "requests": [[e["b"], e["items"], e["ans"]] for e in reqs], "reported": ret.get("reported")})
+                  "requests": [[e["b"], e["items"], e["ans"]] for e in reqs], "reported": ret.get("reported"), "filed": ret.get("filed")})
     return f
 
 
@@ -165,6 +165,7 @@ def run(ctx):
         "model_runs": gstats,
         "cases_by_operation": fams,
         "admin_requests_observed": nreq,
+        "foreign_requests_turned_away": summary.get("foreign_requests_turned_away", 0),
         "drift_traces": drift,
         "drift_note": "controller-bound operations (cases emitted by the reference variants of spec/Admin.tla) on which the real code did not "
                       "do what the implementation-shaped model predicted (attempt count, result class, code); soft, never a verdict",
@@ -185,6 +186,8 @@ def run(ctx):
                         "(both 'Max attempts' and 'Max retries' implementations satisfy the clauses)",
                         "a retry after a dropped connection is tolerated; after an error answer or an incomplete answer it is not",
                         "DescribeConsumerGroups / ListConsumerGroupOffsets report per-item errors inside the returned value; that counts as reporting",
+                        "the simulated brokers serve only the client id of the case being run (pid + sequence number); requests of other clients "
+                        "(other processes, stragglers) are dropped unrecorded",
                         "MockBroker transport, harness classification of the returned error (errors.As) and TLC are trusted",
                         "bounds: 3 brokers, Retry.Max <= 3, 3 partitions/groups, at most one broker failing a whole request"],
                        save={"trace.ndjson": trace, "cases.ndjson": cases})
